@@ -37,7 +37,7 @@ def load_known():
 
 def match_known(known, prop, group, failure):
     for k in known.get("known", []):
-        if k["property"] != prop or k["group"] != group:
+        if k["property"] != prop or not re.search(k["group"], group):
             continue
         if re.search(k["obligation"], failure["description"]) or re.search(k["obligation"], failure["property"]):
             return k
